@@ -698,3 +698,7 @@ def check(repo, rep, tier):
   rule_prior_inputs(repo, rep)
   rule_components_init(repo, rep)
   rule_scml_basis_table(repo, rep)
+  from . import c20b
+  c20b.rule_psd_test(repo, rep)
+  c20b.rule_pinv_spectrum(repo, rep)
+  c20b.rule_metric_init_table(repo, rep)
